@@ -422,7 +422,7 @@ def parse_strace(path, root):
             continue
         pid, rest = m.group(1), m.group(2)
         if rest.endswith("<unfinished ...>"):
-            pending[pid] = rest[:-len("<unfinished ...>")]
+            pending[pid] = rest[:-len("<unfinished ...>")].rstrip()
             continue
         m2 = re.match(r"^<\.\.\. \w+ resumed>(.*)$", rest)
         if m2:
